@@ -246,7 +246,7 @@ def boundary_value(lib, m, field, i):
       return int(m.nhistory)
     if field == 'geom_dataid':
       t = int(I('geom_type')[i])
-      return int(m.nmesh) if t in (E.mjGEOM_MESH, E.mjGEOM_SDF) else int(m.nhfield) if t == E.mjGEOM_HFIELD else None
+      return int(m.nhfield) if t == E.mjGEOM_HFIELD else int(m.nmesh)
     if field in ('pair_signature', 'exclude_signature'):
       return (int(m.nbody) << 16) + 0
     if field in ('eq_obj1id', 'eq_obj2id'):
@@ -607,23 +607,23 @@ class C31:
         idxs = sorted(set(idxs) | set(2 * i for i in seen.values()) | set(2 * i + 1 for i in seen.values()))
       if r.kind == 'id':
         n = int(getattr(m, r.target))
-        elem_cases(f, idxs, Q([n, n + 7, r.lo - 1, -9, INT_MAX, INT_MIN], [n, n + 7, r.lo - 1, INT_MIN]),
+        elem_cases(f, idxs, Q([n, n + 7, r.lo - 1, -9, INT_MAX, INT_MIN], [n, r.lo - 1]),
                    'id >= %s or < %d' % (r.target, r.lo), [f])
       elif r.kind == 'name':
         n = int(m.nnames)
-        elem_cases(f, idxs, Q([n, n + 9, -1, INT_MIN, INT_MAX], [n, -1, INT_MAX]), 'name address outside names', [f])
+        elem_cases(f, idxs, Q([n, n + 9, -1, INT_MIN, INT_MAX], [n]), 'name address outside names', [f])
       elif r.kind == 'adrnum':
         n = int(getattr(m, r.target))
         k = np.asarray(getattr(m, r.num)).ravel()
         pos = np.flatnonzero(k > 0)
         i = int(pos[-1]) if pos.size else 0
         ki, ai = int(k[i]), int(a[i])
-        elem_cases(f, [i], Q([n - ki + 1, n + 3, -2, INT_MAX, INT_MAX - ki + 1], [n - ki + 1, -2, INT_MAX]),
+        elem_cases(f, [i], Q([n - ki + 1, n + 3, -2, INT_MAX, INT_MAX - ki + 1], [n - ki + 1]),
                    'adr+num > %s' % r.target, [f, r.num])
-        elem_cases(r.num, [i], Q([n - ai + 1, n + 5, -1, INT_MAX, INT_MIN], [n - ai + 1, -1]),
+        elem_cases(r.num, [i], Q([n - ai + 1, n + 5, -1, INT_MAX, INT_MIN], [n - ai + 1]),
                    'num too large / negative', [f, r.num])
       else:
-        elem_cases(f, idxs, Q([1 << 20, -2, INT_MAX, INT_MIN, 7], [1 << 20, -2, 7]), 'special relation')
+        elem_cases(f, idxs, Q([1 << 20, -2, INT_MAX, INT_MIN, 7], [1 << 20]), 'special relation')
         for i in idxs:      # the value just past the legal range of this element
           bv = boundary_value(lib, m, f, i)
           if bv is not None and bv >= 0:
@@ -635,7 +635,7 @@ class C31:
       for f, (off, dt, sh, nb) in lay.arrays.items():
         if nb and dt.kind in 'iu' and dt.itemsize == 4 and f not in intable:
           a = np.asarray(getattr(m, f)).ravel()
-          elem_cases(f, sorted(set([0, a.size - 1]))[-per_field:], Q([-2, 1 << 20, INT_MAX, INT_MIN], [-2, 1 << 20]),
+          elem_cases(f, sorted(set([0, a.size - 1]))[-per_field:], Q([-2, 1 << 20, INT_MAX, INT_MIN], [-2]),
                      'int field outside the table')
     return out
 
@@ -645,7 +645,7 @@ class C31:
     out = []
     for s in (names or lib.model_sizes):
       v = int(getattr(m, s))
-      vals = [v - 1, v + 1, -1, INT_MAX + 1] if quick else [0, v - 1, v + 1, v + 16, 2 * v + 1, -1, INT_MAX,
+      vals = [v - 1, v + 1, -1] if quick else [0, v - 1, v + 1, v + 16, 2 * v + 1, -1, INT_MAX,
                                                                 INT_MAX + 1, 1 << 40, -(1 << 40)]
       for nv in sorted(set(vals)):
         if nv == v:
@@ -848,11 +848,11 @@ def main(ck):
             labels=['roundtrip:generated'] + [l for l in gm.labels() if l.split(':')[0] in (
                 'mesh', 'hfield', 'texture', 'material', 'default-class', 'frame', 'replicate', 'keyframe', 'tuple',
                 'geom-adhesion', 'pair-adhesion', 'gravcomp', 'surfacevel', 'numeric', 'text', 'pair', 'exclude')])
-  ck.run_hypothesis(rt_test, st.tuples(gen_io.rich_models(max_bodies=4, memory='2M', fusestatic=False, muscles=False), mg.state_seed()), ck.budget(16, 120),
+  ck.run_hypothesis(rt_test, st.tuples(gen_io.rich_models(max_bodies=4, memory='2M', fusestatic=False, muscles=False), mg.state_seed()), ck.budget(5, 120),
                     name='roundtrip', shrink=False)
   _tick('roundtrip-generated')
   files = [f for f in corpus.xml_files(lib.repo) if os.path.getsize(f) < (4000 if quick else 40000)]
-  files = [files[i] for i in rng.permutation(len(files))][:ck.budget(14, 60)]
+  files = [files[i] for i in rng.permutation(len(files))][:ck.budget(5, 60)]
   crecs = []
   for f, m in corpus.iter_models(lib, files):
     if int(lib.mj_sizeModel(m)) > (1 << 20 if quick else 64 << 20):
@@ -897,7 +897,7 @@ def main(ck):
   done_fields = collections.Counter()
   reps = 1 if quick else 3
   for k, r in enumerate(targets):
-    cases = [x for x in c.index_cases(r, per_field=1 if quick else 2, other=True, quick=quick)
+    cases = [x for x in c.index_cases(r, per_field=1 if quick else 2, other=not quick, quick=quick)
              if done_fields[x.get('cover', x['field'])] < reps]
     for f in set(x.get('cover', x['field']) for x in cases):
       done_fields[f] += 1
@@ -910,13 +910,13 @@ def main(ck):
     if quick:
       ds = derived_sizes(lib)
       cons = [x for x in lib.model_sizes if x not in ds]
-      names = sorted(ds) + [cons[i] for i in rng.permutation(len(cons))[:25]]
+      names = sorted(ds) + [cons[i] for i in rng.permutation(len(cons))[:10]]
     c.run_cases(r, c.size_cases(r, names=names, quick=quick))
     c.run_cases(r, c.header_cases(r))
   _tick('sizes-header')
   for r in targets[:ck.budget(1, 4)]:
     every = (not quick) and r['nbytes'] < 15000
-    c.run_truncations(r, c.truncation_lengths(r, rng, ck.budget(40, 1500), every=every))
+    c.run_truncations(r, c.truncation_lengths(r, rng, ck.budget(20, 1500), every=every))
 
   _tick('truncation')
   # ---------- (c3) random corruptions drawn by Hypothesis
@@ -931,7 +931,7 @@ def main(ck):
   infos = [lay_info(lib, r) for r in pool]
   strat = st.integers(0, len(pool) - 1).flatmap(
       lambda i: st.tuples(st.just(i), random_corruptions(infos[i], 40)))
-  ck.run_hypothesis(rnd_test, strat, ck.budget(6, 120), name='random-corruption', shrink=False)
+  ck.run_hypothesis(rnd_test, strat, ck.budget(2, 120), name='random-corruption', shrink=False)
 
   _tick('random')
   # ---------- (d) libFuzzer
@@ -957,7 +957,7 @@ def fuzz(ck, c, recs):
     with open(os.path.join(cdir, 'seed%03d.mjb' % n), 'wb') as f:
       f.write(r['data'])
     n += 1
-  secs = ck.budget(15, 240)
+  secs = ck.budget(8, 240)
   jobs = 1 if ck.quick else 4
   cmd = [exe, cdir, '-max_total_time=%d' % secs, '-artifact_prefix=' + adir + '/', '-max_len=400000', '-timeout=20',
          '-rss_limit_mb=3000', '-malloc_limit_mb=512', '-seed=%d' % ck.seed, '-print_final_stats=1', '-len_control=0']
@@ -992,13 +992,18 @@ def fuzz(ck, c, recs):
   ck.extra['fuzz_seed_inputs'] = n
   arts = sorted(os.listdir(adir))
   stats_path = os.path.join(WORKDIR, 'fuzz_stats.txt')
+  nrerun = 0
   for a in arts:
     path = os.path.join(adir, a)
     if a.startswith(('timeout-', 'oom-', 'slow-unit-')):
       ck.label('fuzz:' + a.split('-')[0] + '(inconclusive)')
       continue
+    nrerun += 1
+    if nrerun > ck.budget(4, 40):      # bounded by count: every further artifact is only counted
+      ck.extra['fuzz_artifacts_not_rerun'] = ck.extra.get('fuzz_artifacts_not_rerun', 0) + 1
+      continue
     # re-run the single input to obtain its report
-    q = subprocess.run([exe, path], stdin=subprocess.DEVNULL, capture_output=True, text=True, env=env, timeout=120, errors='replace')
+    q = subprocess.run([exe, path], stdin=subprocess.DEVNULL, capture_output=True, text=True, env=dict(env, ASAN_OPTIONS=env['ASAN_OPTIONS'] + ':symbolize=1'), timeout=120, errors='replace')
     rep = q.stderr
     kind, fn, loc = isolate.innermost_frame(rep)
     m = re.search(r'VF-ORACLE: ([^\n]*)', rep)
